@@ -32,6 +32,16 @@ CLAIMS = {
 
 NOT_APPLICABLE = {}
 
+CLAIMS["C15"] = dict(
+    text="Proof for strings of arbitrary length and <n> codes over Z: metacommands.rad50 (through the real Metacommand.compile_insn) is verified with three loop "
+         "contracts (character loop, padding loop with a variant, packing loop): the code list is, per chunk and in order, the alphabet index of each upper-cased "
+         "character / the raw code, padded with spaces to a multiple of 3; the output is one little-endian word (c1*40+c2)*40+c3 per three codes; an error is reported "
+         "iff some character is outside the 40-character alphabet or some <n> is not in 0..39. pack_to_int (the arithmetic of ^R) for lengths 0..3; the table equals the "
+         "RADIX-50 alphabet (closed); unpacking recovers the three codes (lemma, all integers in range).",
+    note="Trusted: pyvc incl. its cut-point loop rule, z3 (arrays + quantifiers, strings under uninterpreted upper()/find()), struct.pack model. Chunk shapes up to 2 "
+         "(quick) / 3 (thorough) chunks are enumerated; string lengths are unbounded. Outside: the regex delimiting '^R' literals (parser).",
+)
+
 CLAIMS["C13"] = dict(
     text="Proof for images of any length, any 16-bit base and any 16-byte tape name: bin is base and length as little-endian words then the bytes; raw is the bytes; "
          "make_wav_file writes the canonical 44-byte 8-bit mono PCM RIFF header; encode_data_bits emits 8 pulses per byte least significant bit first; "
